@@ -1,6 +1,6 @@
 SPECIFICATION Spec
 CONSTANTS
-  Values = {"a", "b", "nan"}
+  Mode = "f64"
   MaxOps = 5
   Emit = TRUE
 INVARIANT AppendFresh
